@@ -73,11 +73,26 @@ def generate(rng, tier):
         for c in range(1, len(data)):
             for kind in ("file", "socket", "pipe"):
                 yield pu.frame_line(skip, rng.choice([pu.REAL_TRIM, 5]), kind, 0, [data[:c], data[c:]]), "cut-sweep"
+    yield from gen_gzip(rng, tier)
     if tier == "thorough":
         # one genuine stream beyond the real 20 MB trim threshold, maximum-size packets
         pk = [pu.mk_packet(rng, 65536) for _ in range(330)]
         data = b"".join(pk)
         yield pu.frame_line(0, pu.REAL_TRIM, "file", 1 << 20, pu.cut(rng, data, 1 << 20)), "real-trim-21MB"
+
+
+def gen_gzip(rng, tier):
+    """Compressed packet files opened with `gzip.open` (a binary file object like any other)."""
+    made = 0
+    for _ in range(30):
+        if made >= (3 if tier == "quick" else 12):
+            break
+        data = pu.gz_stream(rng)
+        if data is None:
+            continue
+        made += 1
+        yield pu.frame_line(0, pu.REAL_TRIM, "gzip", -1, [data]), "gzip-file"
+        yield pu.frame_line(0, pu.REAL_TRIM, "gzip", 64, [data]), "gzip-file"
 
 
 def impl(line):
